@@ -288,7 +288,7 @@ func crossFormation(rpc string, cs *kit.CaseStats) error {
 // FuzzC10Response perturbs the encoded bytes of one response message of one
 // client function (coverage-guided) and applies the C10 oracle.
 func FuzzC10Response(f *testing.F) {
-	c10Timeout = 10 * time.Second
+	c10Timeout = 4 * time.Second // the fuzz engine kills a worker whose input takes 10 s
 	fuzzRPCs := []string{"read", "verify", "roots", "append", "free", "fund", "replenish", "replpools", "form", "renew", "refresh-full", "refresh-partial"}
 	for i := range fuzzRPCs {
 		f.Add(byte(i), byte(0), []byte{0, 9, 1})
